@@ -818,6 +818,9 @@ class ArrayOf(DataType):
         return f'ArrayOf({repr(self.members)}, {self.minlen}, {self.maxlen})'
 
     def check_type(self, value):
+        if isinstance(value, (str, bytes, bytearray, dict)):
+            # these have a length, but they are not sequences of array elements
+            raise WrongTypeError(f'{type(value).__name__} can not be converted to ArrayOf DataType!')
         try:
             # check number of elements
             if self.minlen is not None and len(value) < self.minlen:
@@ -855,6 +858,7 @@ class ArrayOf(DataType):
 
     def import_value(self, value):
         """returns a python object from serialisation"""
+        self.check_type(value)
         return tuple(self.members.import_value(elem) for elem in value)
 
     def format_value(self, value, unit=True):
@@ -912,6 +916,9 @@ class TupleOf(DataType):
         return f"TupleOf({', '.join([repr(st) for st in self.members])})"
 
     def check_type(self, value):
+        if isinstance(value, (str, bytes, bytearray, dict)):
+            # these have a length, but they are not sequences of tuple elements
+            raise WrongTypeError(f'{type(value).__name__} can not be converted to TupleOf DataType!')
         try:
             if len(value) == len(self.members):
                 return
